@@ -182,10 +182,18 @@ def read_task(prop, cfg, tier, seed):
                     sc.extra.append(core.sym_or(core.sym_and(o1 == o2, l1 == l2), o1 + l1 <= o2, o2 + l2 <= o1))
         for (fname, off, ln, wbits, mx) in zlog:
             sc.need.append(ln >= core_sz + 32)
-            for kind, f2, n2, e2, a2, v2, ai2 in E.apps:
-                if f2 == fname and kind == "W":
-                    a = core.SymInt(a2, ai2, 0, 1 << 70) if not isinstance(a2, int) else a2
-                    sc.extra.append(core.sym_or(a + n2 <= off, a >= off + ln))
+
+        def inflate_clear():
+            # no recorded byte/word view (of the implementation or of the oracle) may lie inside a compressed range
+            out = []
+            for (fname, off, ln, wbits, mx) in zlog:
+                for kd, f2, n2, e2, a2, v2, ai2 in E.apps:
+                    if f2 == fname:
+                        a = core.SymInt(a2, ai2, 0, 1 << 70)
+                        out.append(core.sym_or(a + n2 <= off, a >= off + ln))
+            return out
+
+        sc.extra_fn = inflate_clear
         if fault:
             return fault_finish(ctx, E, res, length, cs, zlog, cs)
         sv = spec.guest_byte(offset + j, l1_off, l1_size, P, mem, dmem, bmem, bsize if bsize is not None else 0)
